@@ -21,6 +21,41 @@ CHECKS = {
         technique="TLC trace validation of compiler output against Facto/Circuit TLA+ specs over all boundary valuations"),
 }
 
+CHECKS.update({
+    "C02": dict(
+        text=("As C01 but the compared observable is the WHOLE signal bag on each result's anchor network, for every program of the GenBundle "
+              "core (literals incl. nested/merged, each-arithmetic x operand kinds, filters x output modes x thresholds, any/all, selection, "
+              "chains): a leaked operand, a doubled or a missing member is a failure. Exhaustive within the stated bounds."),
+        design="DESIGN 7 C02", technique="TLC trace validation of compiler output: whole-bag refinement over all boundary valuations"),
+    "C03": dict(
+        text=("TLC explores ALL input histories (closure of ChangeInput over a trimmed boundary domain, one input changed at a time and held "
+              "until settled) of the product of the emitted circuit with the abstract gated cell of Facto.tla, for every program of the GenMem "
+              "cell families, comparing every reader at every settled state. Hardware races (enable dropped while data changed) are detected "
+              "by the abstract machine, not judged and counted."),
+        design="DESIGN 7 C03, 6.1", technique="TLC model checking of Circuit(BP) x abstract memory machine over all input histories"),
+    "C05": dict(
+        text=("As C03 with the abstract SR/RS latch (priority = the argument named first): all input histories for both argument orders x "
+              "value kinds x set/reset as boolean signals, comparisons on two inputs, and comparisons on one input with disjoint / touching / "
+              "overlapping thresholds (inlined and non-inlined latch implementations both arise)."),
+        design="DESIGN 7 C05", technique="TLC model checking of Circuit(BP) x abstract latch over all input histories"),
+    "C10": dict(
+        text=("Every program of the scalar and bundle cores is compiled with and without optimisation; TLC runs the two emitted circuits in "
+              "lock-step from every boundary valuation and requires equal observations on every exported result (Refine2); an output only one "
+              "build exposes is a difference."),
+        design="DESIGN 7 C10", technique="TLC lock-step product of two compiled blueprints (Refine2)"),
+    "C11": dict(
+        text=("Every arithmetic operator x 7 folding sites x all defined pairs of 9 boundary operands: the folded build is judged against the "
+              "interpreter whose compile-time arithmetic is Int32.tla, compared in lock-step with its Deconst twin (the constant replaced by an "
+              "input pinned to the same value, i.e. the operation performed by a combinator at run time), and any out-of-int32 constant in an "
+              "accepted blueprint is rejected."),
+        design="DESIGN 7 C11", technique="TLC refinement against Int32 compile-time semantics + lock-step twin comparison"),
+    "C20": dict(
+        text=("For every program of the scalar core, optimised and unoptimised build: producer label carries name and line, exactly one empty "
+              "anchor labelled with the name (or a constant producer), the anchor reads the interpreter's value on the result's own signal, every "
+              "typed constant declaration is a constant combinator labelled with name, line and value."),
+        design="DESIGN 7 C20", technique="TLC evaluation of label/exposure clauses + value refinement on compiler output"),
+})
+
 NOT_YET = {}
 
 
